@@ -156,8 +156,8 @@ Proof.
   assert (I4' : NumKInv c w4 wr cl1 (k_lo k (length cl1)) (k_mid k (length cl1)))
     by (apply (numkinv_env c (set_fs w4 (wfs w4))); [exact I4 | reflexivity | exact (proj1 S4)]).
   assert (V4' : cur_view w4 wr = ocb oc1) by exact V4.
-  assert (Ecl : match k with KNever => (Ok tt, w2) | _ => cleanup_impl c w2 k (ns_filter (NSNumR (N.of_nat (length cl1)))) (naming_writes_direct NNumbers) end
-                = cleanup_impl c w2 k IFNum false) by (destruct k; reflexivity).
+  assert (Ecl : forall d, match k with KNever => (Ok tt, w2) | _ => cleanup_impl c w2 k (ns_filter (NSNumR (N.of_nat (length cl1)))) (if naming_writes_direct NNumbers then Some d else None) end
+                = cleanup_impl c w2 k IFNum None) by (intros d; destruct k; reflexivity).
   assert (Ebg : match k with KNever => false | _ => c_bg c end = false) by (destruct k; auto).
   unfold initialize. rewrite Hrot, En. cbn [bind]. rewrite Eo. cbn [bind]. rewrite Ern. cbn [bind]. rewrite Ecl, Ec. cbn [bind]. rewrite Ebg.
   assert (E1 : fst (init_view_k closed ocur) = cl1) by (rewrite <- Ev; reflexivity).
